@@ -152,3 +152,211 @@ Definition mask (s : list byte) (a0 b a : nat) : list byte :=
   if a <=? a0 then firstn b s
   else if b <? a0 then firstn b s ++ repeat 0 (a0 - b) ++ firstn (a - a0) (skipn a0 s)
   else firstn (Nat.max a b) s.
+
+(* ---------- C. several write calls per save, same stream: what the file can contain ---------- *)
+Lemma nth_repeat0 m : forall n, nth n (repeat 0 m) 0 = 0.
+Proof. induction m; intros [|n]; cbn; auto. Qed.
+
+Lemma nth_skipn0 n : forall (l : list nat) i, nth i (skipn n l) 0 = nth (n + i) l 0.
+Proof. induction n; intros [|x l] i; cbn; auto. destruct i; reflexivity. Qed.
+
+Lemma nth_firstn_lt n : forall (l : list nat) i, i < n -> nth i (firstn n l) 0 = nth i l 0.
+Proof. induction n; intros [|x l] [|i] H; cbn; auto; try lia. apply IHn. lia. Qed.
+
+Lemma nth_write_at f off c p : c <> [] ->
+  nth p (write_at f off c) 0 =
+  if p <? off then nth p f 0 else if p <? off + length c then nth (p - off) c 0 else nth p f 0.
+Proof.
+  intros Hc. unfold write_at. destruct c as [|b c]; [contradiction|]. set (cc := b :: c) in *.
+  destruct (Nat.ltb_spec p off) as [H|H].
+  - destruct (Nat.lt_ge_cases p (length f)) as [H'|H'].
+    + rewrite app_nth1 by (rewrite firstn_length; lia). apply nth_firstn_lt, H.
+    + rewrite app_nth2 by (rewrite firstn_length; lia). rewrite firstn_length.
+      rewrite app_nth1 by (rewrite repeat_length; lia). rewrite nth_repeat0. symmetry. apply nth_overflow. exact H'.
+  - rewrite app_assoc. rewrite app_nth2 by (rewrite app_length, firstn_length, repeat_length; lia).
+    rewrite app_length, firstn_length, repeat_length.
+    replace (p - (Nat.min off (length f) + (off - length f))) with (p - off) by lia.
+    destruct (Nat.ltb_spec p (off + length cc)) as [H1|H1].
+    + apply app_nth1. lia.
+    + rewrite app_nth2 by lia. rewrite nth_skipn0. f_equal. lia.
+Qed.
+
+Lemma length_write_at f off c : c <> [] ->
+  length (write_at f off c) = Nat.max (length f) (off + length c).
+Proof.
+  intros Hc. unfold write_at. destruct c as [|b c]; [contradiction|].
+  rewrite !app_length, firstn_length, repeat_length, skipn_length. lia.
+Qed.
+
+Lemma length_chunk s off n : length (chunk s off n) = Nat.min n (length s - off).
+Proof. unfold chunk. rewrite firstn_length, skipn_length. reflexivity. Qed.
+
+Lemma nth_chunk s off n i : i < length (chunk s off n) -> nth i (chunk s off n) 0 = nth (off + i) s 0.
+Proof.
+  intros H. rewrite length_chunk in H. unfold chunk. rewrite nth_firstn_lt by lia. apply nth_skipn0.
+Qed.
+
+(* writing the next chunk of s at its own offset only adds written positions *)
+Lemma write_chunk_pointwise s f (W : nat -> bool) off n :
+  (forall p, nth p f 0 = if W p then nth p s 0 else 0) ->
+  chunk s off n <> [] ->
+  forall p, nth p (write_at f off (chunk s off n)) 0 =
+            if W p || ((off <=? p) && (p <? off + length (chunk s off n))) then nth p s 0 else 0.
+Proof.
+  intros Hf Hc p. rewrite (nth_write_at _ _ _ _ Hc).
+  destruct (Nat.ltb_spec p off) as [H|H].
+  - rewrite Hf. destruct (Nat.leb_spec off p); [lia|]. rewrite andb_false_l, orb_false_r. reflexivity.
+  - destruct (Nat.ltb_spec p (off + length (chunk s off n))) as [H1|H1].
+    + destruct (Nat.leb_spec off p); [|lia]. rewrite andb_true_l, orb_true_r.
+      rewrite nth_chunk by lia. f_equal. lia.
+    + rewrite Hf. rewrite andb_false_r, orb_false_r. reflexivity.
+Qed.
+
+(* The later opener is B: it has just truncated the file when A stood at offset a0.  From then on, for ANY
+   interleaving of write calls of ANY sizes, the file is exactly: the bytes of s at the positions written
+   since (B's prefix [0, offB) and A's stretch [a0, offA)), zeros in the gap between them. *)
+Definition written (a0 a b p : nat) : bool := (p <? b) || ((a0 <=? p) && (p <? a)).
+Definition shapeS (s : list byte) (a0 : nat) (x : ov) : Prop :=
+  opA x = true /\ opB x = true /\ a0 <= offA x /\ offA x <= length s /\ offB x <= length s /\
+  exists f, ofile x = Some f /\
+            length f = Nat.max (offB x) (if a0 <? offA x then offA x else 0) /\
+            forall p, nth p f 0 = if written a0 (offA x) (offB x) p then nth p s 0 else 0.
+
+Definition is_write (e : ev) : bool := match e with WriteA _ | WriteB _ => true | _ => false end.
+
+Lemma if_ext (b b' : bool) (u v : nat) : b = b' -> (if b then u else v) = (if b' then u else v).
+Proof. intros ->. reflexivity. Qed.
+
+Lemma shapeS_step s a0 x e : is_write e = true -> shapeS s a0 x -> shapeS s a0 (ov_step s s x e).
+Proof.
+  intros He (HA & HB & H0 & Ha & Hb & f & Ef & Hl & Hn). destruct e as [| |n|n]; try discriminate; cbn [ov_step].
+  - (* A writes *)
+    rewrite HA. set (c := chunk s (offA x) n). pose proof (length_chunk s (offA x) n) as Lc. fold c in Lc.
+    destruct c as [|b0 c0] eqn:Ec.
+    + cbn [length]. rewrite Nat.add_0_r, Ef. cbn [option_map write_at].
+      unfold shapeS; cbn [offA offB opA opB ofile].
+      repeat (split; [first [reflexivity | assumption | lia]|]). exists f. auto.
+    + assert (Hc : chunk s (offA x) n <> []) by (fold c; rewrite Ec; discriminate).
+      rewrite <- Ec in *. clear Ec. unfold c in *.
+      unfold shapeS; cbn [offA offB opA opB ofile].
+      repeat (split; [first [reflexivity | assumption | lia]|]).
+      rewrite Ef. cbn [option_map]. eexists. split; [reflexivity|]. split.
+      * rewrite (length_write_at _ _ _ Hc), Hl.
+        assert (0 < length (chunk s (offA x) n)) by (destruct (chunk s (offA x) n); [contradiction|cbn; lia]).
+        destruct (Nat.ltb_spec a0 (offA x)); destruct (Nat.ltb_spec a0 (offA x + length (chunk s (offA x) n))); lia.
+      * intros p. rewrite (write_chunk_pointwise s f _ _ _ Hn Hc p). apply if_ext. unfold written.
+        destruct (Nat.ltb_spec p (offB x)); destruct (Nat.leb_spec a0 p); destruct (Nat.ltb_spec p (offA x));
+          destruct (Nat.leb_spec (offA x) p); destruct (Nat.ltb_spec p (offA x + length (chunk s (offA x) n)));
+          cbn; try reflexivity; lia.
+  - (* B writes *)
+    rewrite HB. set (c := chunk s (offB x) n). pose proof (length_chunk s (offB x) n) as Lc. fold c in Lc.
+    destruct c as [|b0 c0] eqn:Ec.
+    + cbn [length]. rewrite Nat.add_0_r, Ef. cbn [option_map write_at].
+      unfold shapeS; cbn [offA offB opA opB ofile].
+      repeat (split; [first [reflexivity | assumption | lia]|]). exists f. auto.
+    + assert (Hc : chunk s (offB x) n <> []) by (fold c; rewrite Ec; discriminate).
+      rewrite <- Ec in *. clear Ec. unfold c in *.
+      unfold shapeS; cbn [offA offB opA opB ofile].
+      repeat (split; [first [reflexivity | assumption | lia]|]).
+      rewrite Ef. cbn [option_map]. eexists. split; [reflexivity|]. split.
+      * rewrite (length_write_at _ _ _ Hc), Hl. destruct (Nat.ltb_spec a0 (offA x)); lia.
+      * intros p. rewrite (write_chunk_pointwise s f _ _ _ Hn Hc p). apply if_ext. unfold written.
+        destruct (Nat.ltb_spec p (offB x)); destruct (Nat.leb_spec a0 p); destruct (Nat.ltb_spec p (offA x));
+          destruct (Nat.leb_spec (offB x) p); destruct (Nat.ltb_spec p (offB x + length (chunk s (offB x) n)));
+          cbn; try reflexivity; lia.
+Qed.
+
+Lemma shapeS_run s a0 evs : forall x, forallb is_write evs = true -> shapeS s a0 x -> shapeS s a0 (ov_run s s x evs).
+Proof.
+  induction evs as [|e evs IH]; intros x Hw Hs; [exact Hs|].
+  cbn [forallb] in Hw. apply andb_true_iff in Hw as [H1 H2]. apply IH; [exact H2|]. apply shapeS_step; assumption.
+Qed.
+
+(* list facts to turn the pointwise description into a prefix / a hole *)
+Lemma firstn_ext b : forall f s : list nat, b <= length f -> b <= length s ->
+  (forall p, p < b -> nth p f 0 = nth p s 0) -> firstn b f = firstn b s.
+Proof.
+  induction b as [|b IH]; intros f s Hf Hs H; [reflexivity|].
+  destruct f as [|x f]; [cbn in Hf; lia|]. destruct s as [|y s]; [cbn in Hs; lia|].
+  cbn [firstn]. f_equal; [exact (H 0 ltac:(lia))|].
+  apply IH; cbn in *; try lia. intros p Hp. exact (H (S p) ltac:(lia)).
+Qed.
+
+Lemma split_nth : forall (f : list nat) b, b < length f -> f = firstn b f ++ nth b f 0 :: skipn (S b) f.
+Proof.
+  induction f as [|x f IH]; intros b H; [cbn in H; lia|].
+  destruct b as [|b]; [reflexivity|]. cbn [firstn nth skipn app]. f_equal. apply IH. cbn in H. lia.
+Qed.
+
+Lemma skipn_nil_le {A} n : forall l : list A, skipn n l = [] -> length l <= n.
+Proof. induction n; intros [|x l] H; cbn in *; try lia; try discriminate. apply le_n_S, IHn, H. Qed.
+
+(* what a reader's decoder makes of such a file, if B's offset is an opcode boundary *)
+Lemma shapeS_decode v a0 x : shapeS (dump v) a0 x -> boundary (dump v) (offB x) = true ->
+  exists f, ofile x = Some f /\ (decode f = EOF \/ decode f = Bad \/ decode f = Value v []).
+Proof.
+  intros (HA & HB & H0 & Ha & Hb & f & Ef & Hl & Hn) Hbd. exists f. split; [exact Ef|].
+  set (s := dump v) in *. set (a := offA x) in *. set (b := offB x) in *.
+  assert (HL : length f <= length s) by (rewrite Hl; destruct (a0 <? a); lia).
+  destruct (Nat.ltb_spec a0 a) as [Haa|Haa].
+  - destruct (Nat.lt_ge_cases b a0) as [Hh|Hh].
+    + (* a gap [b, a0) of zeros, A's stretch behind it *)
+      right. left. assert (Hbl : b < length f) by lia.
+      assert (E : f = firstn b s ++ 0 :: skipn (S b) f).
+      { etransitivity; [exact (split_nth f b Hbl)|]. f_equal.
+        - apply firstn_ext; [exact (Nat.lt_le_incl _ _ Hbl)|exact Hb|]. intros p Hp. etransitivity; [apply Hn|]. unfold written.
+          destruct (Nat.ltb_spec p b); [reflexivity|lia].
+        - f_equal. etransitivity; [apply Hn|]. unfold written.
+          destruct (Nat.ltb_spec b b); [lia|]. destruct (Nat.leb_spec a0 b); [lia|]. reflexivity. }
+      rewrite E. apply hole_is_bad, Hbd.
+    + (* contiguous: a prefix of s of length max a b *)
+      assert (Ef' : f = firstn (length f) s).
+      { rewrite <- (firstn_all f) at 1. apply firstn_ext; [apply le_n|exact HL|].
+        intros p Hp. rewrite Hl in Hp. etransitivity; [apply Hn|]. unfold written.
+        destruct (Nat.ltb_spec p b); [reflexivity|]. destruct (Nat.leb_spec a0 p); [|lia].
+        destruct (Nat.ltb_spec p a); [reflexivity|lia]. }
+      destruct (Nat.lt_ge_cases (length f) (length s)) as [Hlt|Hge].
+      * left. rewrite Ef'. apply (dump_prefix_eof v _ (skipn (length f) s)); [symmetry; apply firstn_skipn|].
+        intros E. apply skipn_nil_le in E. exact (Nat.lt_irrefl _ (Nat.lt_le_trans _ _ _ Hlt E)).
+      * right. right. rewrite Ef'. rewrite firstn_all2 by exact Hge. apply dump_accepted.
+  - (* A has written nothing since: B's prefix only *)
+    assert (Ef' : f = firstn (length f) s).
+    { rewrite <- (firstn_all f) at 1. apply firstn_ext; [apply le_n|exact HL|].
+      intros p Hp. rewrite Hl in Hp. etransitivity; [apply Hn|]. unfold written. destruct (Nat.ltb_spec p b); [reflexivity|lia]. }
+    destruct (Nat.lt_ge_cases (length f) (length s)) as [Hlt|Hge].
+    + left. rewrite Ef'. apply (dump_prefix_eof v _ (skipn (length f) s)); [symmetry; apply firstn_skipn|].
+      intros E. apply skipn_nil_le in E. exact (Nat.lt_irrefl _ (Nat.lt_le_trans _ _ _ Hlt E)).
+    + right. right. rewrite Ef'. rewrite firstn_all2 by exact Hge. apply dump_accepted.
+Qed.
+
+(* the state right after the later open: file empty, B at 0, A at a0 *)
+Definition after_open (a0 : nat) : ov := Ov (Some []) a0 0 true true.
+
+Lemma shapeS_after_open s a0 : a0 <= length s -> shapeS s a0 (after_open a0).
+Proof.
+  intros H. unfold shapeS, after_open. cbn [opA opB offA offB ofile]. repeat split; try lia.
+  exists []. split; [reflexivity|]. split.
+  - destruct (Nat.ltb_spec a0 a0); [lia|reflexivity].
+  - intros p. unfold written. destruct (Nat.ltb_spec p 0); [lia|]. destruct (Nat.leb_spec a0 p); destruct (Nat.ltb_spec p a0);
+      cbn; try lia; destruct p; reflexivity.
+Qed.
+
+(* Same stream, several write calls of ANY sizes, ANY interleaving after the second open, cut anywhere (evs is
+   arbitrary), a third caller with ANY options: correct model or recompile — provided the later opener's
+   offset is an opcode boundary at the moment of the load (its write calls end where an opcode starts). *)
+Theorem chunked_same_stream_reader t w o' a0 evs o e : routes_ok t = true ->
+  a0 <= length (stream w o') -> forallb is_write evs = true ->
+  let x := ov_run (stream w o') (stream w o') (after_open a0) evs in
+  boundary (stream w o') (offB x) = true ->
+  match load_gen t (set_cfile w (option_map (fun f => (f, clock w)) (ofile x))) o e UnpicklingError with
+  | inr m => m = (src w, o)
+  | inl y => transfer_recompiles t y = true
+  end.
+Proof.
+  intros Hr Ha Hw x Hb. unfold stream in *.
+  pose proof (shapeS_run _ a0 evs _ Hw (shapeS_after_open _ a0 Ha)) as Hs. fold x in Hs.
+  destruct (shapeS_decode _ a0 x Hs Hb) as (f & Ef & Hd). rewrite Ef. cbn [option_map].
+  destruct (routes_ok_inv t Hr) as (He & _ & _).
+  apply (load_file_good t (set_cfile w (Some (f, clock w))) o e UnpicklingError f (clock w) Hr (He false)); [reflexivity|].
+  unfold file_good. cbn [set_cfile src]. destruct Hd as [-> | [-> | ->]]; try exact I. eauto.
+Qed.
